@@ -185,6 +185,24 @@ def judge_generic(spec, rdclass, wire, probs):
         probs.append((T + "/generic-as-known/rejected", "generic text %r rejected when parsed as %s: %s" % (gt, T, e)))
     except Exception as e:
         probs.append(("%s/generic-as-known/crash/%s" % (T, crash_sig(e)), "%s: %s" % (type(e).__name__, e)))
+    if spec.has_names():
+        # a record holding relative names: the generic form needs the origin
+        rr = dns.rdata.from_wire(rdclass, spec.rdtype, wire, 0, len(wire), EXAMPLE)
+        try:
+            if rr.to_generic(EXAMPLE).to_wire() != wire:
+                probs.append((T + "/to_generic/relative-with-origin/wire-differs", "to_generic(origin) of the relativised %s holds %s" % (
+                    wire.hex(), rr.to_generic(EXAMPLE).to_wire().hex())))
+        except Exception as e:
+            probs.append(("%s/to_generic/relative-with-origin/crash/%s" % (T, crash_sig(e)), "%s: %s" % (type(e).__name__, e)))
+        try:
+            g0 = rr.to_generic()
+            if g0.to_wire() != wire:
+                probs.append((T + "/to_generic/relative-without-origin/wrong-wire", "to_generic() of a record with relative names silently holds %s (absolute form %s)" % (
+                    g0.to_wire().hex(), wire.hex())))
+        except dns.name.NeedAbsoluteNameOrOrigin:
+            pass
+        except Exception as e:
+            probs.append(("%s/to_generic/relative-without-origin/crash/%s" % (T, crash_sig(e)), "%s: %s" % (type(e).__name__, e)))
     try:
         r4 = dns.rdata.from_text(rdclass, 65281, gt)
         if r4.to_wire() != wire or not isinstance(r4, dns.rdata.GenericRdata) or r4.to_text() != gt:
